@@ -113,13 +113,14 @@ Proof. exact serde_roundtrip. Qed.
 Print Assumptions C17_serde_typed_roundtrip.
 (* ... instantiated on every annotated ledger type, to every depth of the recursive ones: equal value, same CBOR bytes. *)
 Theorem C17_serde_table_roundtrip :
-  forall (ext_str : N -> bytes -> bytes) (ext_of_str : N -> bytes -> option bytes) d name s a v,
-  In (name, s, a) (serde_table d) ->
+  forall (ext_str : N -> bytes -> bytes) (ext_of_str : N -> bytes -> option bytes)
+         (emb : json -> json) (unemb : json -> option json) d name s a v,
+  In (name, s, a) (serde_table emb unemb d) ->
   jwf ext_str ext_of_str a v = true -> canonical ext_str a v = true ->
   exists v', of_json_s ext_of_str a (json_s ext_str a v) = Ok v' /\ v' = v /\ enc s v' = enc s v.
 Proof. exact serde_table_roundtrip. Qed.
 Print Assumptions C17_serde_table_roundtrip.
-Theorem C17_serde_annotations_wf : forall d, Forall (fun e => wfj (snd e) = true) (serde_table d).
+Theorem C17_serde_annotations_wf : forall emb unemb d, Forall (fun e => wfj (snd e) = true) (serde_table emb unemb d).
 Proof. exact serde_table_wfj. Qed.
 Print Assumptions C17_serde_annotations_wf.
 Check ex_value_ok. Check ex_cert_ok. Check ex_withdrawals_ok. Check ex_withdrawals_rev_reordered.
